@@ -364,10 +364,13 @@ func init() {
 	register(symPkg+"RunToCrash", func(fr *frame, args []value) (res value) {
 		r := fr.run()
 		r.flags["crashArmed"] = 1
+		firstNew := len(fr.sched().gs)
 		defer func() {
 			r.flags["crashArmed"] = 0
 			if p := recover(); p != nil {
 				if _, ok := p.(crashNow); ok {
+					// the process is dead: none of its goroutines runs any further
+					fr.sched().killFrom(firstNew)
 					res = true
 					return
 				}
